@@ -7,13 +7,21 @@ import Fca.Drv.C01
 import Fca.Drv.C20
 import Fca.Drv.C06
 import Fca.Drv.C16
+import Fca.Drv.C08
+import Fca.Drv.C13
+import Fca.Drv.C07
+import Fca.Drv.C14
 open Lean Fca.Drv
 
 def allHandlers : List (String × Handler) :=
   Fca.Drv.C01.handlers ++
   Fca.Drv.C20.handlers ++
   Fca.Drv.C06.handlers ++
-  Fca.Drv.C16.handlers
+  Fca.Drv.C16.handlers ++
+  Fca.Drv.C08.handlers ++
+  Fca.Drv.C13.handlers ++
+  Fca.Drv.C07.handlers ++
+  Fca.Drv.C14.handlers
 
 def dispatch (line : String) : String :=
   match Json.parse line with
